@@ -291,6 +291,22 @@ func genC12(g *G) {
 		}
 		return strings.Join(ps, ",")
 	}
+	// nearly IPv4-mapped: each of the twelve prefix bytes of ::ffff:1.2.3.4 changed in turn
+	for pos := 0; pos < 12; pos++ {
+		for _, v := range []byte{0x00, 0x01, 0x80, 0xfe, 0xff} {
+			ip := []byte{0, 0, 0, 0, 0, 0, 0, 0, 0, 0, 0xff, 0xff, 1, 2, 3, 4}
+			if ip[pos] == v {
+				continue
+			}
+			ip[pos] = v
+			for _, f := range fams {
+				g.Emit("ip2a", H(ip), f)
+			}
+			m := 96 + g.Rnd.IntN(33)
+			g.Emit("net2p", H(ip), showOpt(cidr(m, 16)), fams[g.Rnd.IntN(3)], probesFor(ip, m))
+			g.Emit("net2p", H(ip), showOpt(cidr(24, 4)), fams[g.Rnd.IntN(3)], probesFor(ip, 24))
+		}
+	}
 	for i := 0; i < g.N(25000, 500000); i++ {
 		ip := genIP()
 		mask := genMask()
